@@ -38,11 +38,15 @@ def book_order(repo: Repo) -> List[Ob]:
         for i, n in enumerate(_calls_named(cfg, "remove_empty_product_states"), 1):
             sites += 1
             key = f"remove-then-refresh#{i}"
+            # the slot index is the tensor axis that resize_fock pads / slices and the automatic resize before an operation uses: a stale one
+            # makes the next resize cut or pad a neighbour's axis (stored state no longer normalised / of the claimed shape)
+            PR = P + ("C07", "C10")
             if cfg.always_followed_by(n, upd):
-                obs.append(ok("BOOK-order", fi, key, P, n.ast, "indices are refreshed after emptied product spaces are removed"))
+                obs.append(ok("BOOK-order", fi, key, PR, n.ast, "indices are refreshed after emptied product spaces are removed"))
             else:
-                obs.append(bad("BOOK-order", fi, key, P, n.ast,
-                               "remove_empty_product_states() is not followed by update_all_indices() on every path: surviving product spaces shift position while their members keep the old (space, slot) index"))
+                obs.append(bad("BOOK-order", fi, key, PR, n.ast,
+                               "remove_empty_product_states() is not followed by update_all_indices() on every path: surviving product spaces shift position (and the members that stay behind a measured one "
+                               "move up one slot) while they keep the old (space, slot) index – the axis the next resize pads or slices"))
         # creation of a product space
         k = 0
         for n in cfg.nodes:
